@@ -105,6 +105,7 @@ pub fn clocks_line(ln: &Value, rep: &mut Report, known: &Known) {
             let d1 = Dot::new(actor, cv[a]);
             let d2 = Dot::new((b + 1) as u8, dv[b]);
             chk(rep, &["C10"], "dot.partial_cmp", json!(ord_name(d1.partial_cmp(&d2))), ln["dotcmp"][a][b].clone());
+            chk(rep, &["C10"], "dot.eq", json!(d1 == d2), json!(ln["dotcmp"][a][b] == "EQ"));
         }
     }
     if cv.iter().filter(|x| **x > 0).count() >= 2 && dv.iter().filter(|x| **x > 0).count() >= 2 {
